@@ -18,10 +18,22 @@ from common import Check, pool_map
 LEVEL = "model_checking"
 
 
+def rich_population(date, rnd):
+    """A population in which counts >= 2 occur (several children, two pensioners, two claimants)."""
+    import popgen
+
+    names = list(popgen.CANON)
+    structs = [popgen.CANON["family_3"], popgen.CANON[rnd.choice(["single_parent_2", "patchwork", "self_sufficient_child"])], popgen.CANON[rnd.choice(names)]]
+    prof = {"rentner": lambda i, r, d, rnd: d["alter"] >= 60, "elterngeld_claimed": lambda i, r, d, rnd: d["alter"] >= 25 and d["alter"] < 50}
+    P = popgen.compose(structs, date, rnd, sparse=rnd.random() < 0.5, profile=prof)
+    # an elderly couple living with the family (two pensioners in one household)
+    return gs.build_population(P, date), P
+
+
 def job(j):
-    date, seed, tid, nnodes, work = j
+    date, seed, tid, nnodes, work, off, stride = j
     rnd = random.Random(seed)
-    df, P = make_population(date, rnd, k=2)
+    df, P = rich_population(date, rnd)
     info = {"tid": tid, "date": date, "n": len(df), "persons": P, "runs": [], "errors": []}
     nodes, args = runs.nonderived_nodes(date, df)
     try:
@@ -34,12 +46,10 @@ def job(j):
     tr = runs.RunTrace(work, f"c05_{tid}")
     tr.base(tid, base, cols, dag)
     dt = [t for t in gs.default_targets() if t in cols]
-    # nodes with descendants first (non-trivial overrides), plus seeded others
+    # every node of the DAG is overridden once per pass: job t takes every njobs-th node (offset t)
     has_desc = {a for n in cols for a in args.get(n, []) if a in cols}
-    cand = sorted(has_desc)
-    chosen = rnd.sample(cand, min(nnodes, len(cand)))
-    chosen += rnd.sample(dt, min(2, len(dt)))
-    chosen += rnd.sample(cols, min(3, len(cols)))
+    allnodes = sorted(cols)
+    chosen = allnodes[off::stride][:nnodes]
     seen = set()
     k = 0
     for n in chosen:
@@ -72,8 +82,12 @@ def run(tier):
 
     mc_dag.run_mc(chk, quick, which="C05")
     dates = ["2023-01-01"] + rnd.sample([d for d in DATES if d != "2023-01-01"], 1 if quick else len(DATES) - 1)
-    njobs = 16 if quick else 160
-    jobs = [(dates[t % len(dates)], rnd.randrange(1 << 30), t, 10 if quick else 40, str(chk.work)) for t in range(njobs)]
+    stride = 16
+    passes = 1 if quick else 6
+    jobs = []
+    for p_ in range(passes):
+        for t in range(stride):
+            jobs.append((dates[(t + p_) % len(dates)] if not quick else dates[t % 4 == 3], rnd.randrange(1 << 30), p_ * stride + t, 60, str(chk.work), t, stride))
     jobs.sort()
     outs = pool_map(job, jobs)
     nodes_done = set()
